@@ -9,6 +9,7 @@ import math
 import os
 
 import common as C
+import decisions
 import geo
 import tess as T
 from props import c01, c10
@@ -45,11 +46,11 @@ def iloc_replica(ms, x):
 
 def degenerate_suite(rng, tier):
     cnt = 72 if tier == "quick" else 720
-    fams = ["lattice", "onwalls", "cospherical", "coplanar", "cluster", "tiny", "lattice", "cospherical", "manyfaces"]
+    fams = ["lattice", "onwalls", "cospherical", "coplanar", "cluster", "tiny", "lattice", "cospherical", "manyfaces", "offlattice", "offlattice"]
     out = []
     k = 0
     while len(out) < cnt:
-        inp = T.gen_input(rng, fams[k % len(fams)], (k // 3) % 3 + 1, (k // 2) % 2 == 1, nmax=28)
+        inp = T.gen_input(rng, fams[k % len(fams)], (k // 3) % 3 + 1 if fams[k % len(fams)] != "offlattice" else rng.choice([3, 3, 2]), (k // 2) % 2 == 1, nmax=28)
         k += 1
         if len(inp["gens"]) >= 1:
             out.append(inp)
@@ -66,10 +67,11 @@ def run(res, replay=None):
         inputs = [json.load(open(replay))["replay"]["input"]]
     else:
         inputs = geo.corpus_inputs() + degenerate_suite(rng, tier)
-    dbg = geo.geo_data(tier, seed, inputs=inputs, name="c05", opts=1 | 2 | 8, flags=8, profile="debug")
+    dbg = geo.geo_data(tier, seed, inputs=inputs, name="c05", opts=1 | 2 | 8 | 16, flags=8, profile="debug")
     rel = geo.geo_data(tier, seed, inputs=inputs, name="c05r", opts=1 | 2 | 8, flags=0, profile="release")
     n_exact_runs = 0
     n_exact_calls = 0
+    dstats = {}
     pred_cases = []
     for k_in, rec in enumerate(dbg["recs"]):
         inp = rec["inp"]
@@ -82,6 +84,19 @@ def run(res, replay=None):
             if oo is None or "panic" in oo:
                 res.violation("panic:" + geo.panic_signature(oo, inp), f"construction panicked in the {tag} build: {(oo or {}).get('panic')} "
                               f"(family {inp['family']} dim {dim} periodic {inp['periodic']}, n = {len(inp['gens'])})", ctx)
+        # decision-level correspondence with the exact model: a decision taken by the filter alone must be the exact sign
+        if o is not None and o.get("decisions"):
+            st, badd = decisions.check(inp, o["decisions"], max_exact=3000 if tier == "quick" else 30000)
+            for kk, vv in st.items():
+                dstats[kk] = dstats.get(kk, 0) + vv
+            if badd:
+                b = badd[0]
+                kind = "tie" if b["exact_sign"] == 0 else "wrong-side"
+                illc = ":ill-conditioned-vertex" if b["vertex_conditioning"] < 1e-3 else ""
+                res.violation("C05:filter-decides-" + kind + illc + (":K5-dependent-planes" if b["vertex_conditioning"] < 1e-9 else geo.mismatch_class(rec)),
+                              f"cell {b['cell']}: the floating-point filter alone decided {b['filter']:+d} for vertex {b['dual']} against the bisector with generator {b['right']} "
+                              f"(shift {b['shift']}), the exact sign on the ideal geometry is {b['exact_sign']:+d} ({len(badd)} such decisions in this construction; "
+                              f"vertex conditioning {b['vertex_conditioning']:.2e}; family {inp['family']} dim {dim} periodic {inp['periodic']})", dict(ctx, decision=b))
         if o is None or "panic" in o or orl is None or "panic" in orl:
             continue
         tr = o.get("trace") or {}
@@ -145,6 +160,7 @@ def run(res, replay=None):
                 res.disagreements += 1
                 res.violation("corr:c05-predicate-model", f"Coq insphere_model differs from the independent evaluation on {A}", {"points": A}, no_input=True)
                 break
+    res.notes["decision_level_correspondence"] = dstats
     res.notes["runs_that_reached_the_exact_predicate"] = n_exact_runs
     res.notes["exact_predicate_calls"] = n_exact_calls
     res.notes["decisions_checked_against_model"] = len(pred_cases)
